@@ -271,8 +271,15 @@ def run_scenario(mod, sc: dict, keep: bool = False) -> Outcome:
             out.detail = str(e)
             out.info = {"api": "livelock", "wall": True}
             ctx.log("VIOLATION", out.violation)
-        except (SimCrash, SimLivelock) as e:
-            # a crash / livelock that escaped the property's own handling
+        except SimLivelock as e:
+            # the I/O step budget ran out in a call the property module did not wrap itself: bounded liveness
+            # all the same (deterministic: the budget counts simulated I/O calls, not time)
+            out.violation = f"{mod.ID}/livelock/io-step-budget-exceeded"
+            out.detail = str(e)
+            out.info = {"api": "livelock"}
+            ctx.log("VIOLATION", out.violation)
+        except SimCrash as e:
+            # a simulated crash that escaped the property's own handling
             out.error = f"escaped {type(e).__name__}: {e}\n{traceback.format_exc()}"
         except Exception as e:  # noqa: BLE001
             # An exception nobody classified.  If it was raised INSIDE the library (innermost frames in the tree
